@@ -114,6 +114,27 @@ func genC11(d *Draw) Case {
 		cur = "XC"
 		used = append(used, cu.Events[0].Ref)
 	}
+	sameFlow := shape == 0 && d.N(4) == 3
+	sameFlowK := 0
+	if sameFlow {
+		// two or three tokens reach the first catch event over one and the same sequence flow (parallel fork,
+		// exclusive merge): all of them wait there when the event comes, all of them continue
+		k := 2 + d.N(2)
+		sameFlowK = k
+		g.addNode(&Node{ID: "SF", Kind: "and"})
+		g.connect(defs, cur, "SF", nil, -1)
+		g.addNode(&Node{ID: "SM", Kind: "xor"})
+		for i := 0; i < k; i++ {
+			if d.Bool() {
+				t := mkTask(fmt.Sprintf("TS%d", i+1))
+				g.connect(defs, "SF", t.ID, nil, -1)
+				g.connect(defs, t.ID, "SM", nil, -1)
+			} else {
+				g.connect(defs, "SF", "SM", nil, -1)
+			}
+		}
+		cur = "SM"
+	}
 	if shape == 1 && nc > 1 {
 		g.addNode(&Node{ID: "F", Kind: "and"})
 		g.connect(defs, cur, "F", nil, -1)
@@ -181,7 +202,7 @@ func genC11(d *Draw) Case {
 	}
 	c.Prog = &Program{Defs: defs, Vars: vars, Tags: tags, Desc: fmt.Sprintf("catches=%v shape=%d pre-task=%v events=%v racy=%v", used, shape, pre, evd, racy)}
 	c.Picks = drawPicks(d, 40)
-	c.Meta = map[string]int{"racy": b2i(racy), "nevents": len(c.Events), "shape": shape, "final": b2i(final), "parallel": b2i(shape == 1 && nc > 1), "startDef": b2i(startDef)}
+	c.Meta = map[string]int{"racy": b2i(racy), "nevents": len(c.Events), "shape": shape, "final": b2i(final), "parallel": b2i(shape == 1 && nc > 1), "startDef": b2i(startDef), "sameFlow": b2i(sameFlow), "sameFlowK": sameFlowK}
 	nestEvents(d, c)
 	return c
 }
@@ -273,6 +294,9 @@ func checkC11(cc Case, r *simrt.Result) *Outcome {
 			for _, dff := range n.Events {
 				m += delivered[dff.Kind+":"+dff.Ref]
 			}
+			if c.Meta["sameFlowK"] > 1 {
+				m *= c.Meta["sameFlowK"] // one event releases every token that waits there
+			}
 			if leaves[n.ID] > m {
 				vl.add("C11/continued-without-event", "catch event %s continued %d time(s) but only %d matching event(s) were delivered", n.ID, leaves[n.ID], m)
 			}
@@ -312,6 +336,7 @@ func checkC11(cc Case, r *simrt.Result) *Outcome {
 	probe(o, "burst-behind-slow-subscriber", c.Meta["burst"] == 1)
 	probe(o, "more-events-than-inbox", calls > 3)
 	probe(o, "untaken-branch-listener", c.Meta["shape"] == 2)
+	probe(o, "several-tokens-wait-at-one-catch-event-over-the-same-flow", c.Meta["sameFlow"] == 1)
 	probe(o, "start-event-with-a-definition-of-its-own", c.Meta["startDef"] == 1)
 	o.Sample = map[string]any{"program": c.Prog.Desc, "buf": c.Buf, "hold": c.Hold}
 	return o
